@@ -171,12 +171,16 @@ def check_cases(ck: core.Check, cases, kinds: set[str], prop_desc: str, direct=N
     contribs = ck.driver.run(contrib_lines)
     from wire import ds
     n_slot_fail = [0]
+    both_raised: list = []
     for line0, line, r, m, cb in zip(real_lines, sent_lines, real, marked, contribs):
         ck.holds_checked += 1
         if not (r.startswith("ok ") and m.startswith("ok ")):
             if r != m:
                 ck.failures.append(core.Failure("correspondence", line=line, impl=r, model=m,
                                                 detail="rendering raised for the original or the marked tree only"))
+            else:
+                # both raised alike: only right if the model raises too (asked below, in one batch)
+                both_raised.append((line0, line, r))
             continue
         rs, ms = ds(r[3:]), ds(m[3:])
         cs = parse_contribs(cb)
@@ -221,6 +225,11 @@ def check_cases(ck: core.Check, cases, kinds: set[str], prop_desc: str, direct=N
         else:
             ck.failures.append(core.Failure("correspondence", line=line, impl=r, model="ok " + es(exp),
                                             detail="output is not the marked output with contents substituted (layout depends on content)"))
+    if both_raised:
+        for (line0, line, r), mo in zip(both_raised, ck.driver.run([b[0] for b in both_raised])):
+            if mo != r:
+                ck.failures.append(core.Failure("correspondence", line=line, impl=r, model=mo,
+                                                detail="rendering raised for the original and the marked tree, but not in the model"))
 
 
 def ds_(tok: str) -> str:
